@@ -12,7 +12,7 @@ import subprocess
 import threading
 from multiprocessing import Pool
 
-NAMES = ["a", "d/b", ".copiarc", "with space/q'uote", "d\\b", "raw\udcff.bin"]          # 'd\\b' is ONE component containing a backslash; the last name is the byte string b'raw\\xff.bin' (not UTF-8)
+NAMES = ["a", "d/b", ".copiarc", "with space/q'uote", "d\\b", "raw\udcff.bin", "d"]          # 'd\\b' is ONE component containing a backslash; the last name is the byte string b'raw\\xff.bin' (not UTF-8); 'd' is a FILE named like the directory of 'd/b' (one tree never holds both)
 CONTENT = {1: b"one-" * 50 + b"\n", 2: b"two!" * 700 + b"\n" + b"\0" * 140_000, 3: b"", 4: b"four" * 20000}
 BY_BYTES = {v: k for k, v in CONTENT.items()}
 CFG = {}
@@ -38,9 +38,25 @@ def _env(extra=None):
     return e
 
 
+def consistent(tree, rng=None):
+    """a tree holds the file 'd' or something under the directory 'd/', never both"""
+    t = list(tree)
+    i, j = NAMES.index("d"), NAMES.index("d/b")
+    if t[i] and t[j]:
+        t[(i if (rng.random() < 0.5 if rng else True) else j)] = 0
+    return t
+
+
+def blocked(local, hub):
+    """the local tree holds a file where the hub has a directory, or the other way round: that Put cannot be stored"""
+    i, j = NAMES.index("d"), NAMES.index("d/b")
+    return bool((local[i] and hub[j]) or (local[j] and hub[i]))
+
+
 def write_tree(root, tree):
     shutil.rmtree(root, ignore_errors=True)
     os.makedirs(root)
+    tree = consistent(tree)
     for n, c in zip(NAMES, tree):
         if c:
             p = os.path.join(root, n)
@@ -89,20 +105,37 @@ def snapshot(root):
     return sorted(out)
 
 
+def _tree_of(d):
+    return [d.get(n, 0) for n in NAMES]
+
+
+# scripted histories: a file where the other client has already put a directory, and the reverse; then the client clears the clash
+SCRIPTS = [
+    [(0, {"d/b": 1, "a": 1}), (1, {"d": 2, "a": 1, ".copiarc": 3}), (1, {"a": 1, ".copiarc": 3})],
+    [(0, {"d": 1}), (1, {"d/b": 2, "a": 3}), (1, {"a": 3})],
+    [(0, {"d/b": 2}), (1, {"a": 2, "d": 2, "with space/q'uote": 1}), (0, {"d/b": 2, "a": 3})],
+]
+
+
 def run_history(job):
-    seed, length = job
+    seed, length = job[0], job[1]
+    script = job[2] if len(job) > 2 else None
     rng = random.Random(seed)
     d = CFG["dir"]
     hub = os.path.join(d, "hub:2026-09-25T10:30")
     shutil.rmtree(hub, ignore_errors=True)
     os.makedirs(hub)
-    locs = [[rng.choice([0, 1, 2, 3, 4 if rng.random() < 0.2 else 2]) for _ in NAMES] for _ in range(2)]
+    locs = [consistent([rng.choice([0, 1, 2, 3, 4 if rng.random() < 0.2 else 2]) for _ in NAMES], rng) for _ in range(2)]
     recs = []
-    for step in range(length):
+    for step in range(len(script) if script else length):
         c = rng.randrange(2)
-        if rng.random() < 0.4:
+        if script:
+            c = script[step][0]
+            locs[c] = _tree_of(script[step][1])
+        elif rng.random() < 0.4:
             i = rng.randrange(len(NAMES))
             locs[c][i] = rng.choice([0, 1, 2, 3])
+            locs[c] = consistent(locs[c], rng)
         local = os.path.join(d, f"local{c}")
         write_tree(local, locs[c])
         before, conf_b, _ = read_hub(hub)
@@ -114,7 +147,7 @@ def run_history(job):
         snap2 = snapshot(hub)
         recs.append({"kind": "seq", "names": NAMES, "form": form, "client": c, "local": list(locs[c]),
                      "unsendable": any(v and "\udcff" in NAMES[i] for i, v in enumerate(locs[c])), "hub": before, "conf": conf_b, "hub2": after, "conf2": conf_a,
-                     "alien": alien, "exit": code, "sent": s, "skipped": u, "conflicts": cf,
+                     "blocked": blocked(locs[c], before), "alien": alien, "exit": code, "sent": s, "skipped": u, "conflicts": cf,
                      "second": {"exit": code2, "sent": s2, "conflicts": cf2, "unchanged": snap1 == snap2}, "stderr": err if code else ""})
     return recs
 
@@ -129,7 +162,7 @@ def race(job):
     hub0 = [rng.choice([0, 1]) for _ in NAMES]
     write_tree(hub, hub0)
     # (the name the wire cannot carry makes a client refuse to start: it is left to the sequential runs)
-    sendable = [i for i, n in enumerate(NAMES) if n.isprintable() and "\udcff" not in n]
+    sendable = [i for i, n in enumerate(NAMES) if n.isprintable() and "\udcff" not in n and n != "d"]
     hub0 = [c if i in sendable else 0 for i, c in enumerate(hub0)]
     write_tree(hub, hub0)
     la = [rng.choice([0, 2, 2, 4]) if i in sendable else 0 for i, _ in enumerate(NAMES)]
